@@ -155,10 +155,13 @@ class Check:
                 rp = os.path.join(VERIF, "replays", "%s-%d.json" % (self.pid, i))
                 with open(rp, "w") as f:
                     json.dump(v, f, indent=1)
-                print("  rule %s violated in %s at %s: %s %s" % (v["rule"], v["function"], v["at"],
-                                                               v["obligation"], v["detail"]))
-                for line in (v.get("path") or [])[:60]:
-                    print("    " + line)
+                if i < 12:
+                    print("  rule %s violated in %s at %s: %s %s" % (v["rule"], v["function"], v["at"],
+                                                                   v["obligation"], v["detail"][:700]))
+                    for line in (v.get("path") or [])[:60]:
+                        print("    " + line)
+                elif i == 12:
+                    print("  ... %d more violation(s): see the replay files" % (len(new_v) - 12))
                 print("VIOLATION property=%s replay=%s" % (self.pid, rp))
             return 1
         return 0
